@@ -79,7 +79,7 @@ theorem advisory_lock_before_insert_in_generated_handles :
 
 /-- B reaches the lock while A holds it: B waits, then chains from A's log -/
 example :
-    (run [1, 1, 1, 1, 2, 2, 2, 2, 1, 2, 1, 2, 2, 2] exWorld).logs.map (fun e => (e.id, e.prev, e.com)) =
+    (run [1, 1, 1, 1, 1, 2, 2, 2, 2, 2, 1, 2, 1, 2, 2, 2] exWorld).logs.map (fun e => (e.id, e.prev, e.com)) =
       [(1, 0, true), (2, 1, true)] := by
   decide
 
